@@ -1,6 +1,7 @@
 #![allow(dead_code)]
 mod driver;
 mod errors;
+mod export;
 mod gen;
 mod oracle;
 mod tree;
@@ -49,6 +50,7 @@ fn main() {
     let mut rep = report::Report::new(&prop, &tier, seed);
     match prop.as_str() {
         "C13" => props::c13::run(&mut rep, &tier, seed),
+        "C14" => props::c14::run(&mut rep, &tier, seed),
         "C17" => props::c17::run(&mut rep, &tier, seed),
         _ => {
             eprintln!("unknown property {}", prop);
